@@ -512,4 +512,28 @@ B('CC-overlay-reversed', ['C11'], 'frame.py', 'Frame.from_overlay',
 N('CC-mirror-comment', ['C11'], 'frame.py', 'Frame.from_concat',
   "                columns = None # let default creation happen", "                columns = None # default creation")
 
+# ---------------------------------------------------------------------------------- group (C13)
+B('G-selection-shifted', ['C13'], 'series.py', 'Series._axis_group_items',
+  'selection = locations == idx', 'selection = locations >= idx', 'I.group-partition', 'Series._axis_group_items')
+B('G-enumerate-start', ['C13'], 'frame.py', 'Frame._axis_group_labels_items',
+  'for idx, group in enumerate(groups):', 'for idx, group in enumerate(groups[::-1]):', 'I.group-partition', '_axis_group_labels_items')
+B('G-groups-resorted', ['C13'], 'type_blocks.py', 'TypeBlocks.group',
+  '        if unique_axis is not None:', '        groups = np.sort(groups)\n        if unique_axis is not None:', 'I.group-partition', 'TypeBlocks.group')
+B('G-labels-whole', ['C13'], 'frame.py', 'Frame._axis_group_labels_items',
+  'index=self._index[selection],', 'index=self._index,', 'E.pair[group]', '_axis_group_labels_items')
+B('G-axis-crossed', ['C13'], 'frame.py', 'Frame._axis_group_iloc_items',
+  '                        index=self._index,\n                        columns=self._columns[selection],', '                        index=self._index[selection],\n                        columns=self._columns,', 'E.pair[group]', '_axis_group_iloc_items')
+B('G-typeblocks-other-selection', ['C13'], 'type_blocks.py', 'TypeBlocks.group',
+  'yield g, selection, self._extract(row_key=selection)', 'yield g, selection, self._extract(row_key=np.flatnonzero(selection)[::-1])', 'E.pair[group]', 'TypeBlocks.group')
+B('G-sort-unstable', ['C13'], 'frame.py', 'Frame._axis_group_sort_items',
+  'frame_sorted: Frame = self.sort_values(key, axis=not axis)', "frame_sorted: Frame = self.sort_values(key, axis=not axis, kind='quicksort')", 'I.group-sort', '_axis_group_sort_items')
+B('G-run-label-off-by-one', ['C13'], 'frame.py', 'Frame._axis_group_sort_items',
+  'yield group_values[start], extract_frame(slc, index[slc])', 'yield group_values[t], extract_frame(slc, index[slc])', 'I.group-sort', '_axis_group_sort_items')
+B('G-last-run-dropped', ['C13'], 'frame.py', 'Frame._axis_group_sort_items',
+  '        yield group_values[start], extract_frame(slice(start, None), index[start:])', '        pass', 'I.group-sort', '_axis_group_sort_items')
+B('G-slices-differ', ['C13'], 'frame.py', 'Frame._axis_group_sort_items',
+  'extract_frame(slc, index[slc])', 'extract_frame(slc, index[start:t + 1])', 'I.group-sort', '_axis_group_sort_items')
+N('G-swap-eq-operands', ['C13'], 'series.py', 'Series._axis_group_labels_items',
+  'selection = locations == idx', 'selection = idx == locations')
+
 VARIANTS = V
